@@ -11,6 +11,7 @@
 
 mod gen;
 mod model;
+mod race;
 
 use gen::{Case, Op, TxSpec, W, PUT_KEYS};
 use model::{first_diff, read_store, ShardModel};
@@ -957,7 +958,11 @@ fn main() {
             "a transaction whose duplicated Prepare and duplicated Commit are both delivered is applied twice on that shard; the model follows the participant's reported applications in order (counted, not a violation of this property)",
             "liveness is not asserted: lost messages may leave transactions undecided or participants prepared; only 'decided and nothing lost' end states are checked",
         ],
-        parts: vec![PropPart::new("sim", 50_000, 1_200_000, gen::case_strategy, run_case).shrink_iters(4000).boxed()],
+        parts: vec![
+            PropPart::new("sim", 50_000, 1_200_000, gen::case_strategy, run_case).shrink_iters(4000).boxed(),
+            // threads interleaved inside coordinator commit()/abort() (scheduler + yield hooks)
+            PropPart::new("race", 3000, 60_000, |_| race::strategy(), race::check).shrink_iters(60).boxed(),
+        ],
         children: vec![],
     });
 }
